@@ -129,13 +129,16 @@ class EprMonitor:
             arrs = ex._app_arrays.get(x["app"])
             if arrs is None:
                 continue   # the application has been stopped: its arrays are gone
+            if any(y is not x and y["order"] > x["order"] and (y["app"], y["sid"], y["ent"]) == (x["app"], x["sid"], x["ent"])
+                   for y in self.issued):
+                continue   # an earlier attempt of a re-tried request: the same subroutine asked again into the same array
             arr = arrs._arrays[x["ent"]]
             got = arr[10 * kk:10 * (kk + 1)]
             if got != want:
                 cls = "wrong-slice" if any(arr[10 * q:10 * (q + 1)] == want for q in range(x["n"])) else "wrong-content"
                 raise Violation("matcher", f"matcher|{cls}|{d['role']}|{'K' if want[0] == 0 else 'M'}",
                                 {"node": me, "key": key, "pair": kk, "got": got, "want": want, "trace": self.tail()})
-            sl = (x["app"], x["ent"], kk)
+            sl = (x["app"], x["ent"], x["order"], kk)
             if sl in seen:
                 raise Violation("matcher", "matcher|slice-filled-twice", {"node": me, "slice": sl, "trace": self.tail()})
             seen.add(sl)
